@@ -51,8 +51,10 @@ def _build(case):
             tr["mac"].append((seqid, bytes(data), bytes(m)))      # the genuine (seq, packet, MAC) triples
             return m
 
-    def ciphers():
-        c = RecCiphers(cip, cip, mac, mac)
+    def ciphers(out_cip=None, out_mac=None):
+        # (outgoing cipher, incoming cipher, outgoing MAC, incoming MAC): the receiver's OUTGOING direction is
+        # negotiated independently of the direction under test (RFC 4253 section 7.1)
+        c = RecCiphers(out_cip or cip, cip, out_mac or mac, mac)
         c.setKeys(iv, key, iv, key, integ, integ)
         return c
 
@@ -142,7 +144,7 @@ def _build(case):
     # ---- receiver ------------------------------------------------------------------------------
     rcv = Rcv()
     rcv.transport = StringTransport()
-    rcv.currentEncryptions = ciphers()
+    rcv.currentEncryptions = ciphers((case.get("rcip") or case["cip"]).encode(), (case.get("rmac") or case["mac"]).encode())
     if case["comp"]:
         rcv.incomingCompression = Decomp()
     fed = []
@@ -159,9 +161,159 @@ def _build(case):
 
 
 def impl(case) -> str:
+    if case.get("kind") == "rekey":
+        obs, tr = _rekey(case)
+        _TR[stable_hash(case)] = tr
+        return obs
     obs, tr = _build(case)
     _TR[stable_hash(case)] = tr
     return " ".join(obs)
+
+
+# --------------------------------------------------------------------------------------
+# re-key cases: a real client/server pair over in-memory transports; key exchanges run for real (opaque to the model)
+
+_HOSTKEY = []
+
+
+def _rekey(case):
+    """script ops: ["send", side, type>=50, hex] | ["debug", side, hex] | ["rekey", side] | ["pump", side, k]"""
+    import warnings
+    warnings.simplefilter("ignore")
+    from cryptography.hazmat.primitives.asymmetric import ec
+    from twisted.conch.ssh import factory, keys, service, transport
+    from twisted.internet import defer
+    from twisted.internet.testing import StringTransport
+
+    rng = random.Random(case["seed"])
+    if not _HOSTKEY:
+        _HOSTKEY.append(keys.Key(ec.generate_private_key(ec.SECP256R1())))
+    hk = _HOSTKEY[0]
+
+    class Wire(StringTransport):
+        def __init__(self):
+            StringTransport.__init__(self)
+            self.writes = []
+
+        def write(self, data):
+            self.writes.append(bytes(data))
+
+    class Recorder(service.SSHService):
+        name = b"recorder"
+
+        def __init__(self, got):
+            self.got = got
+
+        def packetReceived(self, messageNum, packet):
+            self.got.append((messageNum, bytes(packet)))
+
+    class Hooks:
+        """records, in real order, when this side's key-exchange state leaves NONE and when NEWKEYS is processed"""
+        def sendKexInit(self):
+            self.hist.append(["K"])
+            return super().sendKexInit()
+
+        def _newKeys(self):
+            self.hist.append(["N"])
+            return super()._newKeys()
+
+        def sendPacket(self, messageType, payload):
+            if messageType == transport.MSG_NEWKEYS:
+                self.hist.append(["NK"])        # our NEWKEYS goes out (still under the old keys)
+            return super().sendPacket(messageType, payload)
+
+        def receiveDebug(self, alwaysDisplay, message, lang):
+            self.got.append((4, bytes(message)))
+
+        def receiveError(self, reasonCode, description):
+            self.errors.append((reasonCode, bytes(description)))
+
+    class Server(Hooks, transport.SSHServerTransport):
+        pass
+
+    class Client(Hooks, transport.SSHClientTransport):
+        def verifyHostKey(self, hostKey, fingerprint):
+            return defer.succeed(True)
+
+        def connectionSecure(self):
+            pass
+
+    class Factory(factory.SSHFactory):
+        protocol = Server
+
+        def getPublicKeys(self):
+            return {hk.sshType(): hk.public()}
+
+        def getPrivateKeys(self):
+            return {hk.sshType(): hk}
+
+        def getPrimes(self):
+            return None
+
+    f = Factory()
+    f.startFactory()
+    server = f.buildProtocol(None)
+    client = Client()
+    sides = {"c": client, "s": server}
+    comp = b"zlib" if case["comp"] else b"none"
+    for p in sides.values():
+        p.supportedCompressions = [comp]
+        p.hist, p.got, p.errors = [], [], []
+    server.makeConnection(Wire())
+    client.makeConnection(Wire())
+
+    def deliver(src, dst, k=None):
+        w = src.transport.writes
+        n = len(w) if k is None else min(k, len(w))
+        data = b"".join(w[:n])
+        del w[:n]
+        if not data:
+            return False
+        cuts = sorted({rng.randrange(len(data) + 1) for _ in range(rng.choice([0, 0, 1, 3]))} | {0, len(data)})
+        for a, b in zip(cuts, cuts[1:]):
+            dst.dataReceived(data[a:b])
+        return True
+
+    def settle():
+        for _ in range(200):
+            if not (deliver(client, server) | deliver(server, client)):
+                return
+        raise RuntimeError("pump did not settle")
+
+    settle()
+    for p in sides.values():
+        p.setService(Recorder(p.got))
+        del p.hist[:], p.got[:]
+    other = {"c": server, "s": client}
+    limbo = []
+    for op in case["script"]:
+        k, side = op[0], op[1]
+        p = sides[side]
+        if k == "send":
+            p.hist.append(["S", op[2], op[3]])
+            p.sendPacket(op[2], bytes.fromhex(op[3]))
+        elif k == "debug":
+            last = [h[0] for h in p.hist if h[0] in ("NK", "N")][-1:]
+            if last == ["NK"]:
+                limbo.append(side)      # we have sent NEWKEYS and not yet received the peer's
+            p.hist.append(["S", 4, op[2]])
+            p.sendDebug(bytes.fromhex(op[2]))
+        elif k == "rekey":
+            try:
+                p.sendKexInit()          # the hook records K before the call: drop it again if it raised
+            except RuntimeError:
+                p.hist.pop()
+                p.hist.append(["K"])     # the model's KStart is a no-op while an exchange is in progress
+        elif k == "pump":
+            deliver(p, other[side], op[2])
+    settle()
+    fmt = lambda got: ",".join(f"{t}:{d.hex()}" for t, d in got)
+    # what the peer dispatched is what this side put on the wire, in order
+    obs = f"c>{fmt(server.got)}|q= s>{fmt(client.got)}|q="
+    if client.errors or server.errors:
+        obs += f" ERR{len(client.errors)}/{len(server.errors)}"
+    return obs, {"c": [h for h in client.hist if h[0] != "NK"], "s": [h for h in server.hist if h[0] != "NK"],
+                 "limbo": limbo}
 
 
 # --------------------------------------------------------------------------------------
@@ -182,7 +334,34 @@ def _expected_version(case):
         pos = nl + 1
 
 
+def _oracle_rekey(case, obs):
+    tr = _TR.get(stable_hash(case)) or {}
+    if tr.get("limbo"):
+        # a message allowed during key exchange sent after our own NEWKEYS and before the peer's: RFC 4253 7.3 wants
+        # it under the NEW keys; the transport switches both directions only when the peer's NEWKEYS arrives
+        if "ERR" in obs:
+            return Failure(case, f"sendDebug on side {tr['limbo'][0]} after it sent NEWKEYS and before it received the "
+                           "peer's: sent under the old keys, the peer (already switched) disconnects",
+                           "message-between-newkeys-uses-old-keys")
+    if "ERR" in obs:
+        return Failure(case, "a side received DISCONNECT during re-keying: " + obs[-40:], "rekey-disconnect")
+    parts = obs.split(" ")
+    for side, part in (("c", parts[0]), ("s", parts[1])):
+        got = [m for m in part[2:].split("|q=")[0].split(",") if m]
+        sent = [f"{o[2]}:{o[3]}" if o[0] == "send" else f"4:{o[2]}" for o in case["script"]
+                if o[0] in ("send", "debug") and o[1] == side]
+        for cls, name in ((lambda m: m.split(":")[0] != "4", "service payloads"), (lambda m: m.split(":")[0] == "4", "debug messages")):
+            g, w = [m for m in got if cls(m)], [m for m in sent if cls(m)]
+            if g != w:
+                what = "reordered" if sorted(g) == sorted(w) else "lost or duplicated"
+                return Failure(case, f"{name} sent by {side} {what} across the key exchange: sent {w[:6]} delivered {g[:6]}",
+                               "rekey-order" if what == "reordered" else "rekey-loss")
+    return None
+
+
 def oracle(case, obs):
+    if case.get("kind") == "rekey":
+        return _oracle_rekey(case, obs)
     tr = _TR.get(stable_hash(case))
     toks = obs.split(" ") if obs else []
     evs = [t for t in toks if t[0] in "VPX"]
@@ -290,14 +469,35 @@ def gen(rng, tier):
                     if rep % 3 == 2:
                         corrupt = [rng.randrange(0, 100000), rng.randrange(1, 256)]
                         version = _VERSIONS[0].hex()
-                    cases.append({"cip": cip, "mac": mac, "comp": comp, "banner": banner, "version": version,
-                                  "payloads": payloads, "cuts": cuts, "corrupt": corrupt, "seed": rng.randrange(1 << 30)})
+                    case = {"cip": cip, "mac": mac, "comp": comp, "banner": banner, "version": version,
+                            "payloads": payloads, "cuts": cuts, "corrupt": corrupt, "seed": rng.randrange(1 << 30)}
+                    if corrupt or rep % 3 == 1:
+                        # the receiver's OUTGOING cipher / MAC are negotiated independently of the incoming ones
+                        case["rmac"] = rng.choice(["none", "none"] + macs)
+                        case["rcip"] = rng.choice([cip, "none"] + ciphers)
+                    cases.append(case)
     # long preambles around the 4 KB limit
     for n in ([4070, 4079, 4080, 4081, 4200] if quick else range(4060, 4100)):
         banner = [(b"y" * 99 + b"\n").hex()] * (n // 100) + [(b"z" * (n % 100) + b"\n").hex()]
         cases.append({"cip": "none", "mac": "hmac-sha1", "comp": False, "banner": banner,
                       "version": _VERSIONS[0].hex(), "payloads": [_payload(rng)], "cuts": [rng.randrange(0, 5000)],
                       "corrupt": None, "seed": n})
+    # re-keying while payloads flow: real client/server pair, key exchanges started at random points on either side
+    for i in range(60 if quick else 1500):
+        script = []
+        n = rng.randrange(3, 16)
+        for j in range(n):
+            side = rng.choice("cs")
+            r = rng.random()
+            if r < 0.5:
+                script.append(["send", side, rng.choice([50, 80, 94, 94, 95, 255]), bytes([i % 251, j]).hex() + rng.randbytes(rng.randrange(0, 12)).hex()])
+            elif r < 0.62:
+                script.append(["debug", side, bytes([j]).hex() + rng.randbytes(rng.randrange(0, 5)).hex()])
+            elif r < 0.8:
+                script.append(["rekey", side])
+            else:
+                script.append(["pump", side, rng.choice([1, 1, 2, 3, 50])])
+        cases.append({"kind": "rekey", "comp": rng.random() < 0.3, "seed": rng.randrange(1 << 30), "script": script})
     return cases
 
 
@@ -320,6 +520,21 @@ def corpus():
         *[{**base, "cip": "aes256-cbc", "mac": "hmac-md5", "comp": True, "banner": [], "version": v,
            "payloads": ["5e" + "11" * 20, "5e" + "22" * 20], "cuts": [33], "corrupt": [o, 128], "seed": 8}
           for o in (0, 15, 16, 31, 32, 47, 50)],
+        # the receiver's own outgoing direction has no MAC / no cipher, the incoming one has: tampering must still be caught
+        *[{**base, "cip": "aes128-ctr", "mac": "hmac-sha2-256", "rmac": "none", "rcip": rc, "banner": [], "version": v,
+           "payloads": ["5e" + "11" * 20, "5e" + "22" * 20], "cuts": [50], "corrupt": [o, 4], "seed": 9}
+          for o in (20, 40, 70, 100) for rc in ("none", "aes128-ctr")],
+        {**base, "cip": "none", "mac": "none", "rmac": "hmac-sha1", "rcip": "aes256-cbc", "banner": [], "version": v,
+         "payloads": ["5e0102", "5e03"], "cuts": [30], "corrupt": None, "seed": 10},
+        # payloads sent while a re-key is in progress, both directions (seeded/C35-C scenario)
+        {"kind": "rekey", "comp": False, "seed": 3, "script":
+            [["send", "c", 94, "6100"], ["rekey", "c"], ["send", "c", 94, "6101"], ["send", "c", 94, "6102"],
+             ["debug", "c", "6403"], ["pump", "c", 1], ["send", "s", 95, "7300"], ["send", "s", 95, "7301"],
+             ["send", "c", 94, "6104"], ["rekey", "s"], ["pump", "s", 50], ["pump", "c", 50], ["pump", "s", 50],
+             ["send", "c", 94, "6105"], ["send", "s", 95, "7302"]]},
+        {"kind": "rekey", "comp": True, "seed": 4, "script":
+            [["rekey", "s"], ["send", "s", 80, "01"], ["send", "s", 80, "02"], ["send", "s", 80, "03"], ["rekey", "c"],
+             ["send", "c", 50, "04"], ["send", "c", 50, "05"]]},
     ]
 
 
@@ -332,6 +547,14 @@ def to_coq(case):
     if h not in _TR:
         impl(case)
     tr = _TR[h]
+    if case.get("kind") == "rekey":
+        if tr.get("limbo"):
+            return None     # outside the modelled fragment (known finding message-between-newkeys-uses-old-keys)
+        def kop(o):
+            if o[0] == "S":
+                return f"KSend {o[1]}%N {coq_bytes(bytes.fromhex(o[2]))}"
+            return "KStart" if o[0] == "K" else "KNewKeys"
+        return "(inr (" + coq_list(map(kop, tr["c"]), "kop") + ", " + coq_list(map(kop, tr["s"]), "kop") + "))"
     if sum(len(c) for c in tr["chunks"]) > 1200:
         return None          # keep the Coq terms small; large streams go through the oracle only
     dec = coq_list([coq_bytes(d) for d in tr["dec"]], "bytes")
@@ -339,10 +562,15 @@ def to_coq(case):
     dz = coq_list(["None" if d is None else f"(Some {coq_bytes(d)})" for d in tr["dz"]], "(option bytes)")
     items = coq_list([f"({coq_bytes(z)}, {coq_bytes(p)})" for z, p in zip(tr["z"], tr["pads"])], "(bytes * bytes)%type")
     chunks = coq_list([coq_bytes(c) for c in tr["chunks"]], "bytes")
-    return f"(({tr['bs']}%N, {tr['ms']}%N), ({dec}, {ver}, {dz}), {items}, {chunks})"
+    return f"(inl (({tr['bs']}%N, {tr['ms']}%N), ({dec}, {ver}, {dz}), {items}, {chunks}))"
 
 
 def shrink(case):
+    if case.get("kind") == "rekey":
+        sc = case["script"]
+        for i in range(len(sc)):
+            yield {**case, "script": sc[:i] + sc[i + 1:]}
+        return
     if case["banner"]:
         for i in range(len(case["banner"])):
             yield {**case, "banner": case["banner"][:i] + case["banner"][i + 1:]}
@@ -357,6 +585,8 @@ def shrink(case):
 
 
 def describe(case):
+    if case.get("kind") == "rekey":
+        return case
     d = dict(case)
     d["cuts"] = sorted(set(case["cuts"]))[:12]
     d["payloads"] = [p[:40] for p in case["payloads"]]
@@ -368,16 +598,21 @@ SPEC = Spec(
     pid="C35",
     gen=gen, impl=impl, oracle=oracle, corpus=corpus, shrink=shrink, describe=describe,
     coq_header="From C35 Require Import Model Run.",
-    coq_fn="run_show",
+    coq_fn="run_any",
     to_coq=to_coq,
-    nontrivial=lambda c, o: " P" in " " + o or "X" in o,
-    histogram=lambda c, o: f"{c['cip']}/{c['mac']}/{'zlib' if c['comp'] else 'none'}" + ("/tampered" if c.get("corrupt") else ""),
+    nontrivial=lambda c, o: " P" in " " + o or "X" in o or ":" in o,
+    histogram=lambda c, o: ("rekey/" + ("zlib" if c["comp"] else "none")) if c.get("kind") == "rekey" else
+    f"{c['cip']}/{c['mac']}/{'zlib' if c['comp'] else 'none'}" + ("/tampered" if c.get("corrupt") else "")
+    + ("/asym" if c.get("rmac") else ""),
     rule="every cipher the transport offers (+none) x every MAC it offers (+none) x {none, zlib}, 5 (thorough 25) cases "
          "each: 0-3 banner lines (incl. lines with 'SSH-' inside, lines of exactly one cipher block, empty lines), 14 "
          "version-line shapes (LF only, CR CR LF, 1.99, unsupported, no software part), 1-5 random payloads of 1-40 "
          "(thorough 1000) bytes (some containing LF SSH-2.0-...), deliveries whole / byte-by-byte / random cuts / cut "
-         "after every banner newline; every third case flips one byte of the encrypted stream; preambles around the 4 KB "
-         "limit; non-trivial = something delivered or a disconnect; distinct by (case, observation)",
+         "after every banner newline; every third case flips one byte of the encrypted stream; for the tampered cases and a third of the others the receiver's OUTGOING cipher and MAC are "
+         "chosen independently of the incoming ones (incl. none on one side only); preambles around the 4 KB limit; 60 "
+         "(thorough 1500) re-key histories on a real client/server pair over in-memory transports: 3-15 ops of send "
+         "(service types 50-255) / sendDebug / sendKexInit on either side / deliver the next k packets, key exchanges run "
+         "for real; non-trivial = something delivered or a disconnect; distinct by (case, observation)",
     trusted=["hand-written model coq/C35/Model.v (tied by this correspondence run only)",
              "oracle transcripts: the model is evaluated with the answers the real decryptor and decompressor gave "
              "during the implementation run, replayed in call order, and with the ideal MAC 'verify(seq, p, m) iff the "
